@@ -44,5 +44,15 @@ func specs() map[string]*spec {
 		Rule: "passwords (Unicode, NUL, long) x salt lengths {0,1,8,16,32,64} x g in 2..7 x server secrets, corners B/A/S with a leading zero byte (searched at run time; client secret scripted through crypto/rand.Reader), padded and unpadded B; right password must verify on an independent SRP server holding only v, a neighbouring wrong password must not; empty password; B in {0,p,p+1,long,empty}; distinct = distinct (password, salt lengths, g, corner, len B)",
 		Assumptions: []string{"ref/srpsrv implements core.telegram.org/api/srp server side with hand-written PBKDF2-HMAC-SHA512", "2048-bit MTProto DH prime as SRP group"},
 	})
+	add(&spec{ID: "C02", Level: "exploration", Exhaustive: false,
+		WLs: []wlSpec{{Name: "c02", TimeoutS: 900}},
+		Rule: "for EVERY definition of schemes/api_latest.tl and the wire-used definitions of mtproto.tl: schema-directed values (presence patterns: none, all, each single group; all 2^g patterns for g<=10 in thorough; PRNG ones; boundary string lengths on the first string field; nesting depth 2-4) are built positionally into the registered Go type, serialised by the library and compared byte-for-byte with the independent schema serialiser; the reference bytes are decoded by the library and matched against the value; 2^24-1 / 2^24 / 2^24+1 byte strings; distinct = distinct (definition, presence mask, encoded length). The definition dimension is enumerated completely; the value dimension is sampled",
+		Assumptions: []string{"ref/tlschema (parser self-validated: canonical-line CRC-32 equals the written id on every line)", "bridge maps i-th non-flags parameter to i-th struct field; id->type from the registry export (H1)"},
+	})
+	add(&spec{ID: "C13", Level: "exploration", Exhaustive: true,
+		WLs: []wlSpec{{Name: "c13static", Shards: 4, TimeoutS: 300}},
+		Rule: "finite space enumerated completely: every definition of schemes/api_latest.tl and every id-bearing definition of mtproto.tl (wire-used ones strictly) compared with its registered Go type by reflection (id = CRC() = CRC-32 of the canonical line; field kinds positionally; tag bit; encoded_in_bitflags; FlagIndex), every registered id looked up in the schemas, the hand-written wrappers found by a source scan; distinct = distinct definition / registered id / wrapper",
+		Assumptions: []string{"ref/tlschema parser (self-validated by CRC on every line)", "registry export H1"},
+	})
 	return m
 }
